@@ -66,6 +66,32 @@ fn tre_hook(id: u32) {
     }
 }
 
+/// Single pre-loaded element: the state in which `next` is null for the popper (a push landing in
+/// A's window must not be lost, the node A unlinks must be the one it returns).
+fn treiber_single(point: u32, k: u32) {
+    let st = Stack::new();
+    st.push(1);
+    unsafe {
+        TRE = Tre { stack: &st, point, fired: false, k, next_val: 4, seen: [0; 8], b_ops: 0 };
+    }
+    set_sched_hook(tre_hook);
+    tre_record(st.pop());
+    clear_sched_hook();
+    tre_record(st.pop());
+    tre_record(st.pop());
+    tre_record(st.pop());
+    tre_record(st.pop());
+    assert!(st.is_empty(), "stack longer than everything ever pushed (cycle)");
+    let pushed_by_b = unsafe { TRE.next_val } - 4;
+    let seen = unsafe { TRE.seen };
+    assert!(seen[1] == 1, "the pre-loaded element was lost or handed out twice");
+    assert!(seen[4] == if pushed_by_b >= 1 { 1 } else { 0 }, "B's element was lost or invented");
+    assert!(seen[5] == if pushed_by_b >= 2 { 1 } else { 0 }, "B's element was lost or invented");
+    assert!(seen[6] == if pushed_by_b >= 3 { 1 } else { 0 }, "B's element was lost or invented");
+    zcover!(unsafe { TRE.b_ops } >= 1, "interference ran an operation");
+    forget(st);
+}
+
 /// A = one pop (a_pop) or one push, pre-loaded stack [1,2] (2 on top); B: up to K ops at `point`.
 /// Unwind 3: after the single interference window nothing else changes `head`, so every
 /// compare-exchange loop needs at most 2 iterations (checked by the unwinding assertions).
@@ -119,6 +145,23 @@ macro_rules! c08_treiber {
         }
     };
 }
+macro_rules! c08_treiber_single {
+    ($name:ident, $tier:ident, $unwind:literal, $point:literal, $k:literal) => {
+        zv_harness! {
+            name: $name,
+            prop: "C08",
+            tier: $tier,
+            unwind: $unwind,
+            stubs: [alloc::fmt::format => crate::common::stubs::fmt_format],
+            targets: "memory::secure_pool::LockFreeStack::<u64>::{push,pop} on a ONE-element stack (next == null for the popper); schedule points 111,112",
+            bounds: "stack pre-loaded with 1 node; thread A: one pop; the first time A reaches ONE schedule point (instance arg before last) the solver runs 0..K complete push/pop operations of thread B (K = last arg), enabled operations only",
+            oracle: "no node dereferenced after it was freed, no element handed out twice, multiset popped+drained == pushed",
+            body: { treiber_single($point, $k) }
+        }
+    };
+}
+c08_treiber_single!(c08_treiber_single_pop_at112_k2, quick, 3, 112, 2);
+c08_treiber_single!(c08_treiber_single_pop_at111_k2, quick, 3, 111, 2);
 c08_treiber!(c08_treiber_pop_at111_k1, quick, 3, true, 111, 1);
 c08_treiber!(c08_treiber_pop_at112_k1, quick, 3, true, 112, 1);
 c08_treiber!(c08_treiber_push_at101_k1, quick, 3, false, 101, 1);
